@@ -1,5 +1,5 @@
 import DoitModel.Proofs.C05Mon
-import DoitModel.Proofs.C05Complete
+import DoitModel.Proofs.C05Halt
 /-! # C05 — failures are contained and never recorded as success
 
 Property theorems only (model: `Model/Run.lean` + `Model/RunFail.lean`; invariants: `Proofs/Run*.lean`,
@@ -160,29 +160,39 @@ theorem C05_monitor_serial_stops (inp : RunInput) (s : Sys) (hr : Reach inp s) :
   monC05SerialStops_of_inv (fun hc => reach_invS hc hr)
 
 /-- (c): `monC05ContinueComplete` — the monitor the driver evaluates on every implementation trace — holds on the
-    observable trace of every run of the model that ended normally (`rpc = halted`, no internal error), for every runner,
-    whatever exit code it is given, for every bound `nTasks` that exceeds all task names (`namesBelow`, decidable; the
-    driver's `n`): every member of the closure the monitor computes FROM THE TRACE (`closureOf`: selection, task_dep,
-    calc_dep, what calc_deps with a finish report delivered, setup-tasks of every task whose first-stage dependencies all
+    observable trace of EVERY reachable state of the model, for every runner, with any exit code that is `≤ 2` only if
+    no internal error ended the run (as `exitCode` is), for every bound `nTasks` that exceeds all task names
+    (`namesBelow`, decidable; the driver's `n`).  On a trace that does not end in `complete` the monitor's guard is
+    false (`C05_complete_means_halted`: a trace ending in `complete` is the trace of a halted state); at a normal end
+    every member of the closure the monitor computes FROM THE TRACE (`closureOf`: selection, task_dep, calc_dep, what calc_deps with a finish report delivered, setup-tasks of every task whose first-stage dependencies all
     finished and which is neither ignored nor up-to-date nor in error — a superset of `RunCl`: it also contains the
     setup-tasks of a task reported `unmet` / ignored in the second `select_task` pass) has exactly one terminal report
     in the trace, and a task reported `unmet` has a failed task among the direct dependencies the trace determines
     (`edgesOf`).  The fixed-point iterations of the monitor need no more than `nTasks` rounds (`Proofs/C05Fuel.lean`). -/
-theorem C05_monitor_continue_complete_serial (inp : RunInput) (s : Sys) (hr : Reach inp s) (hend : s.rpc = .halted)
-    (hhalt : s.halt = .none) (nTasks : Nat) (hb : namesBelow inp nTasks = true) (exit : Nat) :
-    monC05ContinueComplete inp nTasks (trace inp s) exit = true := by
-  by_cases hc : inp.continue_ = true
-  · exact monC05ContinueComplete_of_end (allInv_serial hr)
-      (endFacts_serial hr hend hhalt ((reach_invF hr).st hc)) (below_of hb) exit
-  · unfold monC05ContinueComplete; simp [hc]
+theorem C05_monitor_continue_complete_serial (inp : RunInput) (s : Sys) (hr : Reach inp s) (nTasks : Nat)
+    (hb : namesBelow inp nTasks = true) (exit : Nat) (hx : exit ≤ 2 → s.halt = .none) :
+    monC05ContinueComplete inp nTasks (trace inp s) exit = true :=
+  monC05ContinueComplete_of_inv (allInv_serial hr) (reach_invC hr) (endFacts_serial hr) (below_of hb) exit hx
 
-theorem C05_monitor_continue_complete_parallel (inp : RunInput) (s : Sys) (hr : PReach inp s) (hend : s.rpc = .halted)
-    (hhalt : s.halt = .none) (nTasks : Nat) (hb : namesBelow inp nTasks = true) (exit : Nat) :
-    monC05ContinueComplete inp nTasks (trace inp s) exit = true := by
-  by_cases hc : inp.continue_ = true
-  · exact monC05ContinueComplete_of_end (allInv_parallel hr)
-      (endFacts_parallel hr hend hhalt ((preach_invF hr).st hc)) (below_of hb) exit
-  · unfold monC05ContinueComplete; simp [hc]
+theorem C05_monitor_continue_complete_parallel (inp : RunInput) (s : Sys) (hr : PReach inp s) (nTasks : Nat)
+    (hb : namesBelow inp nTasks = true) (exit : Nat) (hx : exit ≤ 2 → s.halt = .none) :
+    monC05ContinueComplete inp nTasks (trace inp s) exit = true :=
+  monC05ContinueComplete_of_inv (allInv_parallel hr) (preach_invC hr) (endFacts_parallel hr) (below_of hb) exit hx
+
+/-- … in particular with the exit code of the model (`exitCode`: 3 after an internal error) -/
+theorem C05_monitor_continue_complete_exit (inp : RunInput) (s : Sys) (hr : PReach inp s ∨ Reach inp s) (nTasks : Nat)
+    (hb : namesBelow inp nTasks = true) : monC05ContinueComplete inp nTasks (trace inp s) (exitCode s) = true := by
+  rcases hr with hr | hr
+  · exact C05_monitor_continue_complete_parallel inp s hr nTasks hb _ exit_le_two
+  · exact C05_monitor_continue_complete_serial inp s hr nTasks hb _ exit_le_two
+
+/-- `complete_run` is reported only by `Runner.finish()`: a trace that contains `complete` belongs to a halted state
+    (why the guard of the monitor singles out the ends of runs) -/
+theorem C05_complete_means_halted (inp : RunInput) (s : Sys) (hr : PReach inp s ∨ Reach inp s)
+    (h : Ev.complete ∈ s.events) : s.rpc = .halted := by
+  rcases hr with hr | hr
+  · exact preach_invC hr h
+  · exact reach_invC hr h
 
 /-- the sharper form of `C05_unmet_has_failed_dep` behind the monitor: the failed dependency is one the run has OBSERVED
     (`DepObs`: task_dep, calc_dep, what calc_deps with a finish report in the event list delivered) or a setup-task -/
